@@ -205,6 +205,15 @@ theorem C12_blocking_partial (i : Nat) (m : Mutex) (h : RWMutex.Inv m) (hi : i <
         exact ih _ hI2 (by omega) k2 heq
       · cases hr
 
+/-- the blocking variants retry with the matching try-function only: `Lock` with `TryLock`,
+    `RLock` with `TryRLock`, on the fast path and in the ticker loop (facts regenerated from
+    rwmutex.go) — so `lockLoop` above is their model -/
+theorem C12_blocking_facts :
+    Gen.RWMutex.blockingCalls_Lock = ["TryLock", "TryLock"] ∧
+    Gen.RWMutex.blockingCalls_RLock = ["TryRLock", "TryRLock"] ∧
+    Gen.RWMutex.wrapperCalls_TryLock = 1 ∧ Gen.RWMutex.wrapperCalls_TryRLock = 1 ∧
+    Gen.RWMutex.wrapperCalls_Unlock = 1 := by decide
+
 /-! ### non-vacuity: a concrete reachable state with both readers and an upgrade refusal -/
 example :
     let ops := [Op.tryRLock 0, .tryRLock 1, .tryLock 0, .unlock 1, .tryLock 0]
